@@ -124,10 +124,8 @@ Definition alias_ref_of (selects : list item) (y : item) : option string :=
 
 (* the with_namespace decision of get_sql *)
 Definition foreign_of (srcs : list tref) (wheres : option item) : bool :=
-  match wheres with
-  | Some (IT w) => existsb (fun o => match o with Some tb => negb (existsb (tref_eqb (resolve_tref srcs tb)) srcs) | None => false end)
-                           (field_tables w)
-  | _ => false end.
+  existsb (fun o => match o with Some tb => negb (existsb (tref_eqb (resolve_tref srcs tb)) srcs) | None => false end)
+          (match wheres with Some w => item_tables w | None => [] end).
 Definition wns_of (from : list source) (joins : list (jhow * source * jcond)) (srcs : list tref) (wheres : option item) : bool :=
   negb (Nat.eqb (List.length joins) 0) || Nat.ltb 1 (List.length from)
   || (match from with SrcQ y :: _ => is_builder y | _ => false end)
